@@ -404,6 +404,12 @@ class Describer:
         if name.endswith("::len") and ("slice" in name or "Vec" in name or "str" in name):
             s = self.slice_of(args[0], depth + 1)
             return ("len", s) if s else None
+        if (name.startswith("core::cmp::min") or name.startswith("core::cmp::max") or (("::min" in name[-6:] or "::max" in name[-6:]) and "cmp" in name)) \
+                and len(args) == 2:
+            a, b_ = self.value_of(args[0], depth + 1), self.value_of(args[1], depth + 1)
+            if a is None or b_ is None:
+                return None
+            return ("bin", "Min" if name.endswith("min") else "Max", a, b_)
         m = re.search(r"::from_(be|le)_bytes$", name)
         if m:
             a = args[0]
